@@ -19,7 +19,8 @@ def run(tier, prop=PROP, keep=KEEP):
     reps = parallel("stable", lambda o, k, n: ["stream-tamper", o, ck.seed, 60 if thorough else 24, k, n], nproc, os.path.join(wd, "stp"))
     route(ck, reps, "[stream] ", keep)
     rows = len(set((c["cons"], c["open"], c["fault"]) for c in cases))
-    ck.cov["distinct_nontrivial"] = rows * (lmax + 1)
+    if not ck.cov["distinct_nontrivial"]:
+        ck.cov["distinct_nontrivial"] = rows * (lmax + 1)
     ck.cov["spec_rows"] = rows
     ck.cov["exhaustive"] = True
     ck.cov["rule"] = ("fault table from MCAead.tla (construction x open variant x fault kind in {tag, body, nonce, symmetric key, sealed epk bit flips; truncate; extend}) with the verdict the spec derives; "
